@@ -191,7 +191,7 @@ def n14_mut_self(toks, counts):
 def n15_errmsg(toks, counts):
     """N15 (opt-in `n15=1`): the TEXT of an error message is not interpreted by any contract.
     `format!(...).into()` and `"literal".into()` become `errmsg_()` (an assumed, unspecified `Cow<'static, str>`);
-    a bare `format!(...)` becomes `errstr_()` (an unspecified String)."""
+    a bare `format!(...)` and `"literal".to_string()` become `errstr_()` (an unspecified String)."""
     out = []
     i, n = 0, len(toks)
     def is_into(k):
@@ -210,6 +210,12 @@ def n15_errmsg(toks, counts):
             continue
         if t.kind == "str" and t.text.startswith('"') and is_into(i + 1):
             out.extend(frag("errmsg_()", t.trivia))
+            counts["N15"] = counts.get("N15", 0) + 1
+            i += 5
+            continue
+        if t.kind == "str" and t.text.startswith('"') and i + 4 < n and is_p(toks[i + 1], ".") and is_id(toks[i + 2], "to_string") \
+                and is_p(toks[i + 3], "(") and is_p(toks[i + 4], ")"):
+            out.extend(frag("errstr_()", t.trivia))
             counts["N15"] = counts.get("N15", 0) + 1
             i += 5
             continue
